@@ -186,6 +186,9 @@ def handleLine (inp out : Toks) : String :=
           if n > 0 && !(match c.head?, c.getLast?, ps.head?, ps.getLast? with
               | some ah, some al, some ph, some pl => bEq ah ph && bEq al pl
               | _, _, _, _ => false) then "propfail endpoints-kept C" else
+          -- "the first and last vertex kept" is about positions: both ends of a line with two or more
+          -- vertices survive, so at least two vertices come back (a closed ring never collapses to one)
+          if n ≥ 2 && (a.length < 2 || c.length < 2) then "propfail endpoints-kept both-ends" else
           if closedB ps && !(closedB a) then "propfail closed-stays-closed" else
           let t1F := Float.ofBits s1.t
           let t2F := Float.ofBits s2.t
